@@ -6,12 +6,28 @@ open CoreBGP CoreBGP.Model CoreBGP.Gen CoreBGP.Props.PathTie
 /-- a NOTIFICATION / KEEPALIVE is handed to the connection in one `Write` (whole messages), after a successful encode -/
 theorem one_write_per_send :
     ∀ fn ∈ ["sendNotification", "sendKeepAlive"], ∀ p ∈ pathsOf fn,
-      (p.calls.filter (· == "f.conn.Write")).length ≤ 1 ∧ (p.calls.contains "f.conn.Write" → p.guards.all (·.2 == false)) := by
+      (p.calls.filter (· == "f.conn.Write(b)")).length ≤ 1 ∧ (p.calls.contains "f.conn.Write(b)" → p.guards.all (·.2 == false)) ∧
+      p.calls.all (fun c => c == "f.conn.Write(b)" || c == "n.encode" || c == "k.encode") := by
   decide
 
 /-- the state functions write to the connection only through `sendNotification` / `sendKeepAlive` -/
 theorem no_direct_write :
-    ∀ ph ∈ phases, ∀ p ∈ pathsOf (fnName ph) ++ prologueOf (fnName ph), p.calls.contains "f.conn.Write" = false := by
+    ∀ ph ∈ phases, ∀ p ∈ pathsOf (fnName ph) ++ prologueOf (fnName ph),
+      p.calls.all (fun c => c != "f.conn.Write(b)" && c != "u.conn.Write(prependHeader(b,updateMessageType))") = true := by
+  decide
+
+/-- `WriteUpdate`: refused with `io.ErrClosedPipe` and without touching the connection once the writer is closed;
+otherwise the body goes to the connection behind its header in ONE `Write`, whose error is what is returned; the
+keepalive manager is signalled only after a successful write, and that signal can always be abandoned for `closeCh` -/
+theorem write_update_paths :
+    (∀ p ∈ pathsOf "WriteUpdate", p.guards.contains ("select recv u.closeCh", true) = true ∧ p.guards.head? = some ("select recv u.closeCh", true) →
+      p.calls = [] ∧ p.ret = ["value:io.ErrClosedPipe"]) ∧
+    (∀ p ∈ pathsOf "WriteUpdate", p.guards.head? = some ("select default", true) →
+      p.calls = ["verifPoint", "u.conn.Write(prependHeader(b,updateMessageType))"] ∧ p.ret = ["result:u.conn.Write"] ∧ p.exit = "return") ∧
+    (∀ p ∈ pathsOf "WriteUpdate", p.guards.head? = some ("select recv u.closeCh", true) ∨ p.guards.head? = some ("select default", true)) ∧
+    (∀ p ∈ pathsOf "WriteUpdate", p.guards.contains ("select send u.resetKATimerCh", true) = true →
+      p.guards.contains ("u.conn.Write()==nil", true) = true) ∧
+    (pathsOf "WriteUpdate").any (fun p => p.guards.contains ("u.conn.Write()==nil", true) && p.guards.getLast? == some ("select recv u.closeCh", true)) = true := by
   decide
 
 end CoreBGP.Props.PathTieC04
